@@ -262,7 +262,7 @@ pub fn explore_from(ctx: &Ctx, x: &[u8], opts: &Opts, mode: &Mode, label: &str, 
                 } else {
                     if !full.starts_with(&sink0) {
                         let (h, _, obs) = replay(x, opts, &hist);
-                        let last = obs.last().cloned().unwrap_or(OpObs { v: V::Ok, n: None, sink_len: 0 });
+                        let last = obs.last().cloned().unwrap_or(OpObs { v: V::Ok, n: None, sink_len: 0, fault: false });
                         viol(&hist, &[], format!("bytes delivered to the sink are a prefix of the complete output {}", brief_bytes(full)), &h, &last);
                     }
                     // get_output is Some and shows the same bytes
